@@ -348,6 +348,7 @@ func (pm *Manager) Exist(name string) bool {
 	pm.mu.RLock()
 	defer pm.mu.RUnlock()
 	_, ok := pm.pxys[name]
+	verifhook.At("pm.exist", "name", name, "exists", ok)
 	return ok
 }
 
